@@ -1,6 +1,6 @@
 (* C05 -- Static typing discipline.  ONLY property theorems here.  The declarative rules are spec/Typing.v
    (docs/language.md, DESIGN.md Appendix E); the theorems say that every typing DECISION of the builder is the table's. *)
-From QV Require Import model.Base model.Lang model.Types model.Tir model.Ceval model.Builder spec.Typing proofs.TypingProofs proofs.BuilderInv proofs.BuilderSafe proofs.TypingSound proofs.IrTyped model.Passes gen.GenE0.
+From QV Require Import model.Base model.Lang model.Types model.Tir model.Ceval model.Builder spec.Typing proofs.TypingProofs proofs.BuilderInv proofs.BuilderSafe proofs.TypingSound proofs.IrTyped model.Passes gen.GenE0 model.Callback proofs.CallbackProofs.
 
 (* The FULL statement -- a whole program is accepted iff it is well typed in the declarative system -- is a theorem for
    the direction "ill-typed is never accepted" on the expression fragment of literals, local variables, objects named by
@@ -154,3 +154,11 @@ Example C05_typed_example_names :
       [EBinary BEq (EMember (EIdent "a") "e") (EMember (EIdent "VObj") "ModeB"); EBinary BAdd (EIdent "i") (EInt 1)] =
   [(true, Some (DConcrete T_BOOL)); (true, Some (DConcrete T_INT))].
 Proof. vm_compute. reflexivity. Qed.
+
+(* callback parameters vs signal signature (uigen/objcode.rs verify_callback_parameter_type; model/Callback.v): a handler's declared parameter list is accepted exactly
+   when it is no longer than the signal's argument list and each argument is assignable, by the table above, to the parameter at its position *)
+Theorem C05_callback_parameters_fit_the_signal : forall E args params, verify_params E args params = POk <->
+  (List.length params <= List.length args)%nat /\
+  forall k, (k < List.length params)%nat -> spec_assignable E (nth k params T_VOID) (DConcrete (nth k args T_VOID)) = true.
+Proof. exact verify_params_ok. Qed.
+Print Assumptions C05_callback_parameters_fit_the_signal.
